@@ -361,6 +361,23 @@ def runAlternatives (M : Matcher) (cfg : Cfg) (s : AState) (inp : List UInt8) (p
     | .rejected => runAlternatives M cfg s3 inp prefix_ bufBefore linenoBefore rest
     | e => (s3, e)
 
+/-- F28: the generated scanner applies the YYLMAX check to look-ahead text (and to the
+    end-of-buffer sentinel) as well; whether that happens depends on the refill points, which this
+    model abstracts from — the trace marks the tokens (`n` = prefix + look-ahead) where it may -/
+def markMayFatal (cfg : Cfg) (s : AState) (n : Nat) : AState :=
+  if cfg.yylmax != 0 && n + 1 ≥ cfg.yylmax then s.emit "mayfatal" else s
+
+/-- `logReads`: the scanner has to see `need` bytes of the pending input -/
+def noteReads (cfg : Cfg) (s : AState) (need plen : Nat) : AState :=
+  if cfg.logReads then s.noteNeed need plen else s
+
+/-- the `<<EOF>>` action of the current start condition begins: announce it, pick its script -/
+def eofScript (s : AState) : AState × List Op :=
+  let s := s.emit s!"eof {s.start}"
+  let script := s.eacts.getD s.eactCounter []
+  let s := { s with eactCounter := s.eactCounter + 1 }
+  (s, if script.isEmpty then s.eofDefault else script)
+
 /-- one call of `yylex`: scan tokens until an action returns -/
 def lexCall (M : Matcher) (cfg : Cfg) : Nat → AState → AState
   | 0, s => s.fatal "model-fuel"
@@ -372,14 +389,10 @@ def lexCall (M : Matcher) (cfg : Cfg) : Nat → AState → AState
     match b.pending with
     | [] =>
       -- end of input: yywrap, then the EOF action of the current start condition
-      let s := if cfg.yylmax != 0 && prefix_.length + 1 ≥ cfg.yylmax then s.emit "mayfatal" else s
-      let (s, more) := doWrap s
+      let (s, more) := doWrap (markMayFatal cfg s prefix_.length)
       if more then lexCall M cfg fuel s
       else if cfg.eofScs.contains s.start then
-        let s := s.emit s!"eof {s.start}"
-        let script := s.eacts.getD s.eactCounter []
-        let s := { s with eactCounter := s.eactCounter + 1 }
-        let script := if script.isEmpty then s.eofDefault else script
+        let (s, script) := eofScript s
         let (s, e) := runAction M cfg s script
         match e with
         | .ret v => s.emit s!"ret {v}"
@@ -389,12 +402,8 @@ def lexCall (M : Matcher) (cfg : Cfg) : Nat → AState → AState
       else s.emit "ret 0"
     | inp =>
       let cands := M.cands s.start b.atBol inp
-      -- F28: the generated scanner applies the YYLMAX check to look-ahead text (and to the
-      -- end-of-buffer sentinel) as well; whether that happens depends on the refill points,
-      -- which this model abstracts from — the trace marks the tokens where it may
-      let s := if cfg.yylmax != 0 && prefix_.length + M.scan s.start b.atBol inp + 1 ≥ cfg.yylmax
-               then s.emit "mayfatal" else s
-      let s := if cfg.logReads then s.noteNeed (M.need cfg.interactive s.start b.atBol inp) inp.length else s
+      let s := markMayFatal cfg s (prefix_.length + M.scan s.start b.atBol inp)
+      let s := noteReads cfg s (M.need cfg.interactive s.start b.atBol inp) inp.length
       let lnBefore := if cfg.reentrant then b.lineno else s.lineno
       let (s, e) := runAlternatives M cfg s inp prefix_ b lnBefore cands
       match e with
